@@ -6,6 +6,7 @@ from .. import tables
 from ..effects import is_enq_send, is_enq_lease, build_class, is_cancel_call
 from ..index import walk_local, ClassInfo
 from ..interp import fmt_term
+from ..effects import strip_epoch
 from . import COMMON_ASSUMPTIONS
 from .handlers import model, H_TERM
 from .c07 import check_guarded_resolve, init_bools
@@ -455,5 +456,112 @@ def rule_genpub(ctx):
     rule_failure_stops_delivery_first(ctx, 'C07.e')
 
 
+
+def _none_test(t):
+    """(subject, is_none) for a term that is a test of `subject is None` / `is not None`, through `not`."""
+    t = strip_epoch(t)
+    if not isinstance(t, tuple):
+        return None
+    if t[0] == 'cmp' and t[1] in ('Is', 'IsNot') and ('const', None) in (t[2], t[3]):
+        subject = t[3] if t[2] == ('const', None) else t[2]
+        return subject, t[1] == 'Is'
+    if t[0] == 'not':
+        inner = _none_test(t[1])
+        return (inner[0], not inner[1]) if inner else None
+    return None
+
+
+def rule_channel_complete_flag(ctx):
+    """C08.j  A channel requester declares its sending direction complete in REQUEST_CHANNEL exactly when it has no
+    publisher.  The COMPLETE flag of the request frame and the sent-complete mark that follows are both decided by
+    `<publisher attribute> is None` - the attribute whose subscribe() the set-up calls, fixed at construction - and
+    not by state that a publisher fills in later (its subscription): a publisher that signals on_subscribe
+    asynchronously would be declared absent, and its payloads would follow a COMPLETE."""
+    rep = ctx.report
+    repo = ctx.repo
+    k = repo.cls('rsocket.handlers.request_channel_requester:RequestChannelRequester')
+    f = k.lookup('subscribe') if k is not None else None
+    setup = k.lookup('setup') if k is not None else None
+    if f is None or setup is None:
+        raise AnalysisError('C08.j: RequestChannelRequester.subscribe / setup vanished')
+    pubs = set()
+    for g in [setup] + [c.methods['setup'] for c in k.mro()[1:] if 'setup' in c.methods]:
+        for n in walk_local(g.node):
+            if isinstance(n, ast.Call) and isinstance(n.func, ast.Attribute) and n.func.attr == 'subscribe' and \
+                    isinstance(n.func.value, ast.Attribute) and isinstance(n.func.value.value, ast.Name) and \
+                    n.func.value.value.id == 'self':
+                pubs.add(n.func.value.attr)
+    if len(pubs) != 1:
+        raise AnalysisError('C08.j: the set-up subscribes %s' % sorted(pubs))
+    pub = ('attr', ('self',), next(iter(pubs)))
+    ps = [p for p in ctx.paths(f, k, inline_depth=3, symbolic_compare=True, stable_attrs=True,
+                               no_inline={'mark_completed_and_finish', 'to_request_channel_frame'})
+          if p.outcome == 'return']
+    ok, detail = bool(ps), ''
+    n_with = n_without = 0
+    for p in ps:
+        built = [e for e in p.events if e.kind == 'call' and e.data.get('name') == 'to_request_channel_frame']
+        if len(built) != 1:
+            ok, detail = False, '%d REQUEST_CHANNEL frames built on a path' % len(built)
+            continue
+        kw = built[0].data.get('kwargs') or {}
+        c = kw.get('complete')
+        if c is None:
+            ok, detail = False, 'the request frame is built without a complete flag'
+            continue
+        has_none = None
+        infeasible = False
+        for e in p.events:
+            if e.kind == 'cond':
+                kk = strip_epoch(e.data['key'])
+                fact = None
+                if kk[0] == 'isnone' and kk[1] == pub:
+                    fact = bool(e.data['value'])
+                elif kk[0] in ('truth', 'not'):
+                    nt = _none_test(kk[1])
+                    if nt is not None and nt[0] == pub:
+                        v = bool(e.data['value']) if kk[0] == 'truth' else not bool(e.data['value'])
+                        fact = nt[1] if v else not nt[1]
+                if fact is not None:
+                    if has_none is not None and has_none != fact:
+                        infeasible = True  # the same attribute tested twice with different answers
+                    has_none = fact
+        if infeasible:
+            continue
+        t = strip_epoch(c.term)
+        test = _none_test(t)
+        if test is not None:
+            if test[0] != pub or test[1] is not True:
+                ok, detail = False, ('the COMPLETE flag of REQUEST_CHANNEL is decided by %s, not by the absence of the '
+                                     'publisher (self.%s is None)' % (fmt_term(t), pub[2]))
+                continue
+        elif t[0] == 'const' and has_none is not None:
+            if bool(t[1]) != has_none:
+                ok, detail = False, 'the COMPLETE flag is %r on a path where the publisher is %s' % (
+                    t[1], 'absent' if has_none else 'present')
+                continue
+        else:
+            ok, detail = False, ('the COMPLETE flag of REQUEST_CHANNEL is %s, which is not the absence of the publisher '
+                                 '(self.%s is None)' % (fmt_term(t), pub[2]))
+            continue
+        marks = [e for e in p.events if e.kind == 'call' and e.data.get('name') == 'mark_completed_and_finish' and
+                 'sent' in (e.data.get('kwargs') or {}) and e.seq > built[0].seq]
+        if has_none is None:
+            ok, detail = False, 'the sent-complete mark is not decided by the absence of the publisher'
+        elif has_none:
+            n_without += 1
+            if len(marks) != 1:
+                ok, detail = False, 'without a publisher the sending direction is not marked complete'
+        else:
+            n_with += 1
+            if marks:
+                ok, detail = False, 'with a publisher the sending direction is marked complete at the request'
+    rep.add('C08.j', 'RequestChannelRequester.subscribe / COMPLETE on the request iff there is no publisher', f,
+            ok and n_with > 0 and n_without > 0, detail or
+            'complete=(self.%s is None) and the sent-complete mark under the same test (%d + %d paths)' % (
+                pub[2], n_without, n_with))
+
+
+
 RULES = [('C08.a', rule_a), ('C08.b', rule_b), ('C08.c', rule_c), ('C08.d', rule_d), ('C08.e', rule_e),
-         ('C08.f', rule_f), ('C08.g', rule_g), ('C05.a', rule_order), ('C13.a+C16.b', rule_h), ('C09.a+C20.d', rule_i), ('C08.i', rule_j), ('C07.e', rule_genpub), ('C01.a', rule_dispatch_by_own_id), ('C01.h', rule_adapter_delegations)]
+         ('C08.f', rule_f), ('C08.g', rule_g), ('C05.a', rule_order), ('C13.a+C16.b', rule_h), ('C09.a+C20.d', rule_i), ('C08.i', rule_j), ('C07.e', rule_genpub), ('C01.a', rule_dispatch_by_own_id), ('C01.h', rule_adapter_delegations), ('C08.j', rule_channel_complete_flag)]
